@@ -218,7 +218,7 @@ class NameGen:
 WEIGHTS = {
     'add_fp': 30, 'add_dir': 14, 'rm_file': 6, 'rm_dir': 4, 'add_link': 8, 'rm_link': 5,
     'add_symlink': 5, 'hide': 3, 'add_eltorito': 3, 'rm_eltorito': 1, 'add_isohybrid': 1,
-    'rm_isohybrid': 1, 'dup_pvd': 0.3, 'restart': 4, 'mass_dirs': 1, 'mass_files': 1, 'add_boot_file': 0, 're_add': 1.5, 'chain_dirs': 0.8, 'mass_eltorito': 0.05, 'shared_hidden_boot': 0.5, 'hybrid_setup': 0.3,
+    'rm_isohybrid': 1, 'dup_pvd': 0.3, 'restart': 4, 'mass_dirs': 1, 'mass_files': 1, 'add_boot_file': 0, 're_add': 1.5, 'chain_dirs': 0.8, 'mass_eltorito': 0.05, 'shared_hidden_boot': 0.5, 'hybrid_setup': 0.3, 'set_relocated_name': 0.6,
 }
 
 
@@ -925,6 +925,11 @@ class OpGen:
             for ns in nss:
                 if ns in op:
                     cur[ns] = op[ns]
+        if out and m.rr and any(o.get('iso') and m.relocates(o['iso']) for o in out) and not m.rr_moved and r.random() < 0.35:
+            # the chain is about to create the relocation directory: give it other names first
+            pre = self.g_set_relocated_name()
+            if pre is not None:
+                out.insert(0, pre)
         return out or None
 
     def g_shared_hidden_boot(self):
@@ -950,6 +955,18 @@ class OpGen:
         e1 = {'op': 'add_eltorito', 'boot': op['iso'], 'media': 'noemul', 'platform': 0, 'bootable': True, 'load_seg': 0, 'efi': False, 'bit': False}
         e2 = dict(e1, efi=True, platform=0xef)
         return [op, e1, e2, {'op': 'rm_link', 'ns': 'iso', 'path': op['iso']}]
+
+    def g_set_relocated_name(self):
+        """set_relocated_name(): the relocation directory of a Rock Ridge image gets other names than RR_MOVED / rr_moved
+        the next time it is created (first relocation of this generation, or after the last relocated directory went)."""
+        m = self.m
+        if not m.rr or m.rr_moved_name is not None or m.cfg['level'] == 4:
+            return None
+        nm = self._new_iso_name('/', True)
+        rn = self._new_rr_name('/')
+        if nm is None or rn is None:
+            return None
+        return {'op': 'set_relocated_name', 'name': nm.rstrip('.'), 'rr': rn}
 
     def g_hybrid_setup(self):
         """Macro-op: everything an isohybrid image needs in one go - an isolinux-shaped boot image as Initial Entry, optionally
